@@ -22,6 +22,7 @@ EXC = {('akd::directory::Directory::publish', 'StorageManager::rollback_transact
 def run(ctx):
     prog = ctx.prog
     ds.snapshot_rules(ctx, 'C13')
+    request_locks(ctx)
     c11.selection_predicate(ctx, 'C13')
     poller(ctx)
     ss.flush_complete(ctx, 'C13')
@@ -77,3 +78,29 @@ def readonly_wrapper(ctx, pfx):
         n += 1
         ctx.ob('%s.SIB.readonly[%s]' % (pfx, name), 'RF-SIB', ok, b.path, '%s:%s' % (b.file, b.line),
                'forwards to Directory::%s(%s) unchanged' % (name, ', '.join(pn)) if ok else 'ReadOnlyDirectory::%s is not a plain forward: %s' % (name, show(e)[:140]))
+
+
+def request_locks(ctx):
+    """every request holds the read side of cache_lock from before its first
+    storage access until its last one: the poller's flush (write side) can then
+    not interleave with a cache miss -> database read -> cache fill of the request,
+    which would leave a record of the old epoch in the freshly flushed cache"""
+    prog = ctx.prog
+    for r in ds.REQUESTS + ('publish',):
+        b = prog.fn_and_inner(ds.D + r)
+        where = '%s:%s' % (b.file, b.line)
+        regs = [x for x in ds.guard_region(b, ('RwLock::read',)) if x['lock'] == 'self.cache_lock']
+        touch = [ev for ev in b.events() if any(isinstance(c, tuple) and c[0] == 'call' and
+                                                (has_leaf(c, 'self.storage') or call_is(c, ds.SNAP_FETCH) or (c[1] or '').startswith(ds.AZ))
+                                                for c in ev['calls'])]
+        ok = False
+        detail = 'the request never takes cache_lock.read(): its cache fills can interleave with the poller\'s flush'
+        if regs and touch:
+            rg = regs[0]
+            acq = rg['ev']['pos'][0]
+            before = all(b.blk_dominates(acq, ev['pos'][0]) for ev in touch)
+            held = all(ds.held_until(b, rg, ev['pos'][0]) for ev in touch)
+            ok = before and held
+            detail = 'cache_lock.read() guard `%s` covers all %d storage-touching steps of %s' % (rg['name'], len(touch), r) if ok else \
+                'the cache_lock read guard does not cover every storage access of %s (acquired-before-all=%s held-until-all=%s)' % (r, before, held)
+        ctx.ob('C13.LOCK[%s]' % r, 'RF-ORDER', ok, b.path, where, detail, key='RF-ORDER|C13.LOCK|%s' % r)
